@@ -207,6 +207,33 @@ def rule_R05_4(ctx):
                        "not allocated for the result (origins: %s): the "
                        "result aliases an operand"
                        % sorted(set(str(x[:4]) for x in others))[:3], where=mir.span_loc(sp))
+        # results that are returned as the value of a call (a helper such as
+        # `value::concat(l, r).ok_or_else(..)`) rather than built in place
+        for c in of.calls():
+            if c.dst is None or c.dst[1] or c.dst[0] not in of.return_locals():
+                continue
+            if tup not in pt.vf.at(c.bb) or (c.declared or "").endswith("FromResidual::from_residual"):
+                continue
+            n_ret += 1
+            pi = (("d", "Ok"), ("f", 0, "std::result::Result", "Ok"), ("d", "List"), ("f", 0, VALUE, "List"))
+            o = pv.origins_of_call(of, c, pi)
+            arcs = [x for x in o if x[0] == "call" and x[3] == "std::sync::Arc::<T>::new"]
+            others = [x for x in o if not (x[0] == "call" and x[3] == "std::sync::Arc::<T>::new")
+                      and x[0] not in ("const",)]
+            r.inst("%s: list + may return the result of %s: %d Arc::new, others %s"
+                   % (of.path, c.res, len(arcs), sorted(set((x[0], x[3] if x[0] == "call" else x[1]) for x in others))[:3]))
+            if any(x[0] == "unknown" for x in o):
+                r.unproven.append("%s: origin of the list + result (via %s) not fully resolved" % (of.path, c.res))
+            elif not arcs and not others:
+                pass      # this call never yields a list
+            elif arcs and not others:
+                r.ok()
+            else:
+                r.fail("%s | list concatenation returns an existing cell" % of.path,
+                       "`+` on two lists can return (through %s) a list whose "
+                       "cell was not allocated for the result (origins: %s): "
+                       "the result aliases an operand"
+                       % (c.res, sorted(set(str(x[:4]) for x in others))[:3]), where=c.loc)
         if not n_ret:
             r.unproven.append("%s: no return specific to list + found" % of.path)
     return r
